@@ -581,8 +581,14 @@ class UrwidImageScreen(urwid.raw_display.Screen):
         self.write(BEGIN_SYNCED_UPDATE)
         try:
             if canvas is not self._ti_screen_canv:
+                screen_canv = self._ti_screen_canv
                 self._ti_screen_canv = canvas
-                self._ti_clear_images()
+                try:
+                    self._ti_clear_images()
+                except BaseException:
+                    # Not (completely) processed; to be processed upon the next redraw
+                    self._ti_screen_canv = screen_canv
+                    raise
             return super().draw_screen(maxres, canvas)
         finally:
             self.write(END_SYNCED_UPDATE)
